@@ -138,6 +138,13 @@ def impl(case):
                 # the caller's index objects are the caller's: unchanged by the call, and the same
                 # objects give the same answer when used again
                 rec['args_changed'] = (repr(item), repr(cols)) != keep
+                # what the caller does with the returned block is the caller's business: overwriting it
+                # must not change what the reader returns afterwards
+                try:
+                    if isinstance(out, np.ndarray) and out.flags.writeable and out.size:
+                        out[...] = 1
+                except Exception:  # noqa
+                    pass
                 out2 = r[item] if cols is None else r[item, cols]
                 if hasattr(out2, '_append_op'):
                     out2 = out2[:]
@@ -210,7 +217,7 @@ def judge(case, impl_res, ans):
         if r.get('args_changed'):
             return 'SPEC: item %d: indexing modified the index objects passed by the caller (NumPy indexing does not)' % k
         if r.get('second_differs'):
-            return 'SPEC: item %d: the same index expression gave different rows the second time' % k
+            return 'SPEC: item %d: the same index expression gave different rows the second time (after the caller overwrote the first result)' % k
     return None
 
 
